@@ -351,8 +351,18 @@ def register_coordinator(R):
 
     R.contract(f'{COORD}.done', props=['C20', 'C17'], params={}, checks=done_post, returns=done_value, raises={}, modifies=lambda c: [])
     R.mark_inline(f'{COORD}.cancel')
+    # also verified against its body (C20 / C17: a failed CRT transfer is never turned into a normal return of result()):
+    # every path ends in a raise -- of what the translator answered, or of the exception handed in -- and a failing or
+    # absent translator changes nothing about that; nothing is modified
+    def he_raised(c):
+        tr = [e for e in c.trace if e.kind == 'ext' and e.name.endswith('crt_translator.()')]
+        return {'translator_asked_at_most_once_with_the_exception_handed_in': B(
+            len(tr) <= 1 and all(tuple(e.args) == (c.a_exc,) for e in tr))}
     R.contract(f'{COORD}.handle_exception', params=dict(exc=ExtT('exception')), raise_when={'Exception': lambda c: None, '$stored': lambda c: None},
-               raises={'Exception': lambda c: {}, '$stored': lambda c: {}}, modifies=lambda c: [])
+               props=['C20', 'C17'], top_level=False,
+               self_type=ObjT(COORD, _exception_translator=OptT(ExtT('crt_translator'))),
+               checks=lambda c: {'never_returns_normally': B(False)},
+               raises={'Exception': he_raised, '$stored': he_raised}, modifies=lambda c: [])
     R.contract(f'{COORD}.result', props=['C20', 'C17'], params=dict(timeout=Const(None)), top_level=False,
                self_type=ObjT(COORD, _exception_translator=ExtT('crt_translator')),
                # what _submit_transfer establishes for every coordinator it hands out: a construction error is recorded, or the
